@@ -73,7 +73,7 @@ func main() {
 		res.Notes = append(res.Notes, "strace unavailable ("+why+"): protocol correspondence and fault injection skipped; stress, scenario and history oracles still run")
 	}
 	res.Rule = "non-trivial = a call that reached the lock (flock observed) / a stress or history round with contention / a script step with its probe. " +
-		"Dimensions (CONVENTIONS addendum 4): 1 state between calls: holdseq and seq scripts in ONE process (the same Mutex value and the same paths through many Lock/unlock cycles, stale Files closed again after their descriptor number was reused, several holders, GC while held), earlier Read results re-verified after every later call, sequentially and in the multi-process histories; 2 caller's memory: slices returned by Read / handed to Write / returned by t kept and compared after every later call, aliasing transform functions; 3 resources: descriptor table and a lock probe from another process after every call of the release phase and after every step of a holdseq script; 4 sizes: seq sizes 0..9000, direct-phase blobs; 5 error paths: release / fault / fsize / limit / persist phases (one-shot and persistent); 6 n/a (contents are opaque bytes); 7 paths: relative spellings from two directories, files that do not exist yet (also raced: fresh-* histories), path unlinked / renamed during an acquisition; 8 shapes + regenerated structural constants, every oracle still runs"
+		"Dimensions (CONVENTIONS addendum 4): 1 state between calls: holdseq and seq scripts in ONE process (the same Mutex value and the same paths through many Lock/unlock cycles, stale Files closed again after their descriptor number was reused, several holders, GC while held), earlier Read results re-verified after every later call, sequentially and in the multi-process histories; 2 caller's memory: slices returned by Read / handed to Write / returned by t kept and compared after every later call, aliasing transform functions; 3 resources: descriptor table and a lock probe from another process after every call of the release phase and after every step of a holdseq script; 4 sizes: seq sizes 0..9000, direct-phase blobs; 5 error paths: release / fault / fsize / limit / persist phases (one-shot and persistent), holdseq `call` steps (complete calls whose callback or deferred-Close body returns an error, panics under a recover above the package, or calls runtime.Goexit; lock probe and descriptor count afterwards); 6 n/a (contents are opaque bytes); 7 paths: ten spellings of each file from two directories (absolute / relative, through a symlinked directory, through a symlinked directory followed by .., through a symlink to the file), handed to every API and to Mutex values and probed from another process under the plain name, files that do not exist yet (also raced: fresh-* histories), path unlinked / renamed during an acquisition; 8 shapes + regenerated structural constants, every oracle still runs"
 
 	if f.Replay != "" {
 		rn.replay()
